@@ -154,6 +154,19 @@ CLAIMED = {
         "Four defects repaired (see known_findings.json 'fixed').",
    technique="Lean 4 proof (parser round trip by induction over the lexical form and the layout) + differential correspondence + exhaustive small-scope search",
    design="5/C06"),
+ "C18": dict(
+   text="Proof: the Shaper with its three memoised stages (instance dictionary, profile, shapes keyed by their threshold) as a state "
+        "machine: for every sequence of earlier calls (any length, shex_graph in both formats with any thresholds, profile_graph) a call "
+        "computes exactly what it computes on a fresh Shaper, which is the pipeline Shexer.run at the call's own threshold (invariant by "
+        "induction over the call list); the serializers' line buffer writes every line exactly once and in order for every capacity and every "
+        "number of lines (so the 5000-line flush boundaries lose or repeat nothing, on either channel); a kernel-checked witness shows that the "
+        "code before the repair (shapes memoised without their threshold) does not have the property. Tie: History.step vs the implementation "
+        "call by call. Search: all sequences of length <= 2 and a sample (thorough: all) of length 3 over 14 operations, each call compared with "
+        "a fresh Shaper; file vs string; outputs of 5 000 - 18 000 lines; Shapers sharing the caller's dictionary.",
+   note="Trusts Lean's kernel, harness. Channel equality (file vs string) and Shaper-to-Shaper isolation are validated by the search, the model "
+        "has one writer. Four defects repaired (threshold ignored, 'sh:' prefix leaking into ShExC, duplicated examples, None stem).",
+   technique="Lean 4 proof (refinement of the memoising object to the pure pipeline; buffer invariant) + differential correspondence + exhaustive short call sequences",
+   design="5/C18"),
 }
 PENDING_REASON = "check not built yet (work in progress; see DESIGN.md section 9 for the build order)"
 
